@@ -40,6 +40,9 @@ func genProgram(t *rapid.T, maxTasks, maxOps int, oneType, noAsync bool) *Case {
 					op.Slot, op.Ctx = key.slot, key.ctx
 					op.Once = rapid.IntRange(0, 3).Draw(t, "once") == 0
 					op.Async = !noAsync && rapid.IntRange(0, 4).Draw(t, "async") == 0
+					if op.Async && !op.Once {
+						op.Seq = rapid.Bool().Draw(t, "seq")
+					}
 					op.Filter = rapid.SampledFrom([]string{"all", "all", "even", "odd"}).Draw(t, "filter")
 				}
 			case "unsub":
@@ -56,6 +59,9 @@ func genProgram(t *rapid.T, maxTasks, maxOps int, oneType, noAsync bool) *Case {
 				op.ID = id
 				op.Any = rapid.IntRange(0, 3).Draw(t, "viaAny") == 0
 				op.Live = rapid.IntRange(0, 2).Draw(t, "liveCtx") == 0
+				if !noAsync && rapid.IntRange(0, 4).Draw(t, "deadCtx") == 0 {
+					op.Dead, op.Live = true, false
+				}
 			}
 			ops = append(ops, op)
 		}
